@@ -415,14 +415,17 @@ def return_paths(fn, src, inl=None):
                 return True
             if isinstance(s, ast.If):
                 t = inl.inline(s.test, s)
-                a = walk(s.body, conds + [(t, True)])
-                b = walk(s.orelse, conds + [(t, False)]) if s.orelse else False
+                pos = True
+                while isinstance(t, ast.UnaryOp) and isinstance(t.op, ast.Not):      # `if not T` = the other polarity of T
+                    t, pos = t.operand, not pos
+                a = walk(s.body, conds + [(t, pos)])
+                b = walk(s.orelse, conds + [(t, not pos)]) if s.orelse else False
                 if a and b:
                     return True
                 if a and not b:
                     if s.orelse:
                         raise Unsupported(f"{src}:{s.lineno}: {fn.name}: an else branch that falls through")
-                    return walk(stmts[i + 1:], conds + [(t, False)])
+                    return walk(stmts[i + 1:], conds + [(t, not pos)])
                 if not a and not b and not s.orelse:
                     raise Unsupported(f"{src}:{s.lineno}: {fn.name}: an if without a return in it")
                 raise Unsupported(f"{src}:{s.lineno}: {fn.name}: unsupported branching")
@@ -430,4 +433,35 @@ def return_paths(fn, src, inl=None):
         return False
     if not walk(fn.body, []):
         raise Unsupported(f"{src}:{fn.lineno}: {fn.name} can fall off its end")
+    return out
+
+
+def effect_paths(fn, src, inl=None):
+    """every path through a function made of if / elif / else, returns, assignments to local temporaries (looked through) and other simple
+    statements: [(conditions, the non-temporary statements executed in order, the returned expression or None)]"""
+    inl = inl or Inliner(fn, src)
+    out = []
+
+    def walk(stmts, conds, done):
+        for i, s in enumerate(stmts):
+            if isinstance(s, ast.Expr) and isinstance(s.value, ast.Constant):
+                continue
+            if isinstance(s, (ast.Assign, ast.AnnAssign)) and isinstance(s.targets[0] if isinstance(s, ast.Assign) else s.target, ast.Name):
+                continue
+            if isinstance(s, ast.Return):
+                out.append((list(conds), list(done), inl.inline(s.value, s) if s.value is not None else None))
+                return
+            if isinstance(s, ast.If):
+                t = inl.inline(s.test, s)
+                pos = True
+                while isinstance(t, ast.UnaryOp) and isinstance(t.op, ast.Not):
+                    t, pos = t.operand, not pos
+                walk(list(s.body) + stmts[i + 1:], conds + [(t, pos)], done)
+                walk(list(s.orelse) + stmts[i + 1:], conds + [(t, not pos)], done)
+                return
+            if isinstance(s, (ast.For, ast.While, ast.Try, ast.With)):
+                raise Unsupported(f"{src}:{s.lineno}: {fn.name}: unsupported statement {ast.unparse(s)[:100]}")
+            done = done + [s]
+        out.append((list(conds), list(done), None))
+    walk(list(fn.body), [], [])
     return out
